@@ -160,7 +160,7 @@ def one(rng):
     out, f7 = solve_all(f, X)
     ub = math.inf
     for _ in range(100):
-        x, w = sagecorr.sample_domain_point(rng, n, kind)
+        x, w = sagecorr.sample_domain_point(rng, n, kind, X)
         if x is None:
             break
         ub = min(ub, float(f(np.array(x))))
